@@ -1,13 +1,34 @@
 //! C19 victim: ctvictim <target> <secrets-file> [signal]
 //! Every secret is run through the single function `ct_region` (same code addresses for every secret).
 //! With `signal`, SIGUSR1 is raised immediately before and after each call (markers for the ptrace tracer).
+#[cfg(feature = "full")]
 use cryptoxide::chacha20::{ChaCha20, XChaCha};
+#[cfg(feature = "full")]
 use cryptoxide::chacha20poly1305::{ChaCha20Poly1305, Tag};
+#[cfg(feature = "full")]
 use cryptoxide::hmac::Hmac;
+#[cfg(feature = "full")]
 use cryptoxide::mac::{Mac, MacResult};
+#[cfg(feature = "full")]
 use cryptoxide::poly1305::Poly1305;
+#[cfg(feature = "full")]
 use cryptoxide::salsa20::Salsa20;
 use std::hint::black_box;
+
+// Without the "full" feature (curve-only build of the library) only the curve targets exist; the MAC / tag types are stand-ins.
+#[cfg(not(feature = "full"))]
+pub struct MacResult(Vec<u8>);
+#[cfg(not(feature = "full"))]
+impl MacResult {
+    pub fn new(b: &[u8]) -> Self {
+        MacResult(b.to_vec())
+    }
+    pub fn code(&self) -> &[u8] {
+        &self.0
+    }
+}
+#[cfg(not(feature = "full"))]
+pub struct Tag(pub [u8; 16]);
 
 extern "C" {
     fn raise(sig: i32) -> i32;
@@ -74,6 +95,7 @@ pub struct Prepared {
     tag_public: Tag,
     msg: Vec<u8>,
     buf: Vec<u8>,
+    big: Vec<u8>,
 }
 
 pub const TARGETS: &[&str] = &[
@@ -85,6 +107,8 @@ pub const TARGETS: &[&str] = &[
     "chacha8_k16", "chacha12", "chachaoriginal", "xsalsa20", "salsa20_k16", "aead_decrypt", "aead_incremental", "poly1305_chunks", "blake2b_mac", "blake2s_mac",
     // 39..
     "macresult_eq28", "macresult_eq48", "tag_cteq", "hmac_sha512_key128",
+    // 43..
+    "hmac_sha256_big", "blake2b_mac_big", "blake2s_mac_big",
 ];
 
 #[no_mangle]
@@ -113,6 +137,7 @@ pub extern "C" fn ct_region(target: u32, secret: *const u8, out: *mut u8, prep: 
             ext[31] |= 64;
             *o = cryptoxide::ed25519::signature_extended(&p.msg[..100], &ext);
         }
+        #[cfg(feature = "full")]
         5 | 6 => {
             let mut m = Poly1305::new(s);
             if target == 5 {
@@ -122,41 +147,49 @@ pub extern "C" fn ct_region(target: u32, secret: *const u8, out: *mut u8, prep: 
             }
             m.raw_result(&mut o[..16]);
         }
+        #[cfg(feature = "full")]
         7 => {
             let mut h = Hmac::new(cryptoxide::sha2::Sha256::new(), &s[..]);
             h.input(&p.msg[..100]);
             h.raw_result(&mut o[..32]);
         }
+        #[cfg(feature = "full")]
         8 => {
             let mut h = Hmac::new(cryptoxide::sha2::Sha512::new(), &s[..]);
             h.input(&p.msg[..100]);
             h.raw_result(&mut o[..64]);
         }
+        #[cfg(feature = "full")]
         9 => {
             let mut c = ChaCha20::new(&s[..], &[7u8; 12]);
             p.buf.copy_from_slice(&p.msg);
             c.process_mut(&mut p.buf[..200]);
             o.copy_from_slice(&p.buf[..64]);
         }
+        #[cfg(feature = "full")]
         10 => {
             let mut c = XChaCha::<20>::new(s, &[7u8; 24]);
             p.buf.copy_from_slice(&p.msg);
             c.process_mut(&mut p.buf[..200]);
             o.copy_from_slice(&p.buf[..64]);
         }
+        #[cfg(feature = "full")]
         11 => {
             let mut c = Salsa20::new(&s[..], &[7u8; 8]);
             p.buf.copy_from_slice(&p.msg);
             c.process_mut(&mut p.buf[..200]);
             o.copy_from_slice(&p.buf[..64]);
         }
+        #[cfg(feature = "full")]
         12 => {
             let mut c = ChaCha20Poly1305::new(&s[..], &[9u8; 12], &p.msg[..13]);
             let (a, b) = p.buf.split_at_mut(150);
             let _ = b;
             c.encrypt(&p.msg[..150], a, &mut o[..16]);
         }
+        #[cfg(feature = "full")]
         13 | 14 | 15 | 16 => o[0] = (black_box(&p.mac_secret) == black_box(&p.mac_public)) as u8,
+        #[cfg(feature = "full")]
         17 => o[0] = (black_box(&p.tag_secret) == black_box(&p.tag_public)) as u8,
         19 | 20 => {
             // extended secret exactly as supplied (not clamped): every 256-bit scalar value, below and above the group order
@@ -186,26 +219,31 @@ pub extern "C" fn ct_region(target: u32, secret: *const u8, out: *mut u8, prep: 
             let pk: [u8; 32] = cryptoxide::x25519::base(&sk).into();
             o[..32].copy_from_slice(&pk);
         }
+        #[cfg(feature = "full")]
         24 => {
             let mut h = Hmac::new(cryptoxide::sha1::Sha1::new(), &s[..]);
             h.input(&p.msg[..100]);
             h.raw_result(&mut o[..20]);
         }
+        #[cfg(feature = "full")]
         25 => {
             let mut h = Hmac::new(cryptoxide::sha3::Sha3_256::new(), &s[..]);
             h.input(&p.msg[..150]);
             h.raw_result(&mut o[..32]);
         }
+        #[cfg(feature = "full")]
         26 => {
             let mut h = Hmac::new(cryptoxide::blake2b::Blake2b::new(64), &s[..]);
             h.input(&p.msg[..150]);
             h.raw_result(&mut o[..64]);
         }
+        #[cfg(feature = "full")]
         27 => {
             let mut h = Hmac::new(cryptoxide::ripemd160::Ripemd160::new(), &s[..]);
             h.input(&p.msg[..100]);
             h.raw_result(&mut o[..20]);
         }
+        #[cfg(feature = "full")]
         28 => {
             let mut h = Hmac::new(cryptoxide::sha2::Sha256::new(), &s[..]);
             h.input(&p.msg[..7]);
@@ -213,42 +251,49 @@ pub extern "C" fn ct_region(target: u32, secret: *const u8, out: *mut u8, prep: 
             h.input(&p.msg[..64]);
             h.raw_result(&mut o[..32]);
         }
+        #[cfg(feature = "full")]
         29 => {
             let mut c = cryptoxide::chacha20::ChaCha::<8>::new(&s[..16], &[7u8; 12]);
             p.buf.copy_from_slice(&p.msg);
             c.process_mut(&mut p.buf[..200]);
             o.copy_from_slice(&p.buf[..64]);
         }
+        #[cfg(feature = "full")]
         30 => {
             let mut c = cryptoxide::chacha20::ChaCha::<12>::new(&s[..], &[7u8; 12]);
             c.process(&p.msg[..130], &mut p.buf[..130]);
             c.process(&p.msg[130..131], &mut p.buf[130..131]);
             o.copy_from_slice(&p.buf[..64]);
         }
+        #[cfg(feature = "full")]
         31 => {
             let mut c = cryptoxide::chacha20::ChaChaOriginal::<20>::new(&s[..], &[7u8; 8]);
             p.buf.copy_from_slice(&p.msg);
             c.process_mut(&mut p.buf[..200]);
             o.copy_from_slice(&p.buf[..64]);
         }
+        #[cfg(feature = "full")]
         32 => {
             let mut c = cryptoxide::salsa20::XSalsa20::new(s, &[7u8; 24]);
             p.buf.copy_from_slice(&p.msg);
             c.process_mut(&mut p.buf[..200]);
             o.copy_from_slice(&p.buf[..64]);
         }
+        #[cfg(feature = "full")]
         33 => {
             let mut c = cryptoxide::salsa20::Salsa::<12>::new(&s[..16], &[7u8; 8]);
             p.buf.copy_from_slice(&p.msg);
             c.process_mut(&mut p.buf[..200]);
             o.copy_from_slice(&p.buf[..64]);
         }
+        #[cfg(feature = "full")]
         34 => {
             // decryption under a secret key: the (public) ciphertext and tag do not verify, for every key alike
             let mut c = ChaCha20Poly1305::new(&s[..], &[9u8; 12], &p.msg[..13]);
             let (a, _b) = p.buf.split_at_mut(150);
             o[0] = c.decrypt(&p.msg[..150], a, &PUBLIC_TAG[..16]) as u8;
         }
+        #[cfg(feature = "full")]
         35 => {
             let mut ctx = cryptoxide::chacha20poly1305::Context::<20>::new(&s[..], &[9u8; 12]);
             ctx.add_data(&p.msg[..5]);
@@ -261,6 +306,7 @@ pub extern "C" fn ct_region(target: u32, secret: *const u8, out: *mut u8, prep: 
             let tag = e.finalize();
             o[..16].copy_from_slice(&tag.0);
         }
+        #[cfg(feature = "full")]
         36 => {
             let mut m = Poly1305::new(s);
             m.input(&p.msg[..7]);
@@ -270,22 +316,27 @@ pub extern "C" fn ct_region(target: u32, secret: *const u8, out: *mut u8, prep: 
             m.input(&p.msg[57..137]);
             m.raw_result(&mut o[..16]);
         }
+        #[cfg(feature = "full")]
         37 => {
             let mut m = cryptoxide::blake2b::Blake2b::new_keyed(32, &s[..]);
             m.input(&p.msg[..200]);
             m.raw_result(&mut o[..32]);
         }
+        #[cfg(feature = "full")]
         38 => {
             let mut m = cryptoxide::blake2s::Blake2s::new_keyed(32, &s[..]);
             m.input(&p.msg[..200]);
             m.raw_result(&mut o[..32]);
         }
+        #[cfg(feature = "full")]
         39 | 40 => o[0] = (black_box(&p.mac_secret) == black_box(&p.mac_public)) as u8,
+        #[cfg(feature = "full")]
         41 => {
             use cryptoxide::constant_time::CtEqual;
             let c = black_box(&p.tag_secret).ct_eq(black_box(&p.tag_public));
             o[0] = c.is_true() as u8;
         }
+        #[cfg(feature = "full")]
         42 => {
             // key longer than the block: HMAC hashes it first (the secret is repeated to 160 bytes, a public length)
             let mut k = [0u8; 160];
@@ -295,6 +346,25 @@ pub extern "C" fn ct_region(target: u32, secret: *const u8, out: *mut u8, prep: 
             let mut h = Hmac::new(cryptoxide::sha2::Sha512::new(), &k[..]);
             h.input(&p.msg[..100]);
             h.raw_result(&mut o[..64]);
+        }
+        #[cfg(feature = "full")]
+        43 => {
+            // one input of 1500 bytes: the multi-block (4-way / 8-way vectorised, when compiled in) SHA-256 path
+            let mut h = Hmac::new(cryptoxide::sha2::Sha256::new(), &s[..]);
+            h.input(&p.big[3..1503]);
+            h.raw_result(&mut o[..32]);
+        }
+        #[cfg(feature = "full")]
+        44 => {
+            let mut m = cryptoxide::blake2b::Blake2b::new_keyed(64, &s[..]);
+            m.input(&p.big[1..1001]);
+            m.raw_result(&mut o[..64]);
+        }
+        #[cfg(feature = "full")]
+        45 => {
+            let mut m = cryptoxide::blake2s::Blake2s::new_keyed(32, &s[..]);
+            m.input(&p.big[1..1001]);
+            m.raw_result(&mut o[..32]);
         }
         18 => {
             // deliberately leaky comparison, used only to prove that the monitors can see a leak
@@ -364,6 +434,7 @@ fn main() {
         tag_public: Tag(<[u8; 16]>::try_from(&PUBLIC_TAG[..16]).unwrap()),
         msg: msg.clone(),
         buf: vec![0u8; 256],
+        big: (0..2048usize).map(|i| (i * 197 + 13) as u8).collect(),
     };
     let mut out = [0u8; 64];
     let mut sec = [0u8; 64];
